@@ -72,7 +72,15 @@ def gen_cases(tier, seed):
             dz = 0.25 if abs(z1 - z0) >= 0.5 else dz      # the z-trapezoid needs at least a couple of steps between the depths
             if abs(z1 - z0) < 2 * dz:
                 tracer, dz = "specialized", 1.0
-        out.append({"cls": cls, "ice": ice, "from": a, "to": b, "tracer": tracer, "dz": dz})
+        decoy = None
+        if rng.random() < 0.25:
+            # the tracer object is first used for another pair of points and then re-pointed at this case's endpoints
+            dzs = (float(np.clip(rng.uniform(zmin, -0.01), zmin, -0.01)), float(np.clip(rng.uniform(zmin, -0.01), zmin, -0.01)))
+            if abs(dzs[0] - dzs[1]) < 10:
+                dzs = (dzs[0], float(np.clip(dzs[0] + 100 if dzs[0] < -150 else dzs[0] - 100, zmin, -0.01)))
+            decoy = {"from": [a[0] + float(rng.uniform(-300, 300)), a[1] + float(rng.uniform(-300, 300)), dzs[0]],
+                     "to": [b[0] + float(rng.uniform(-300, 300)), b[1] + float(rng.uniform(-300, 300)), dzs[1]], "which": int(rng.integers(0, 3))}
+        out.append({"cls": cls, "ice": ice, "from": a, "to": b, "tracer": tracer, "dz": dz, "decoy": decoy})
     return out
 
 
@@ -129,7 +137,23 @@ def run_case(case):
     z0, z1 = float(a[2]), float(b[2])
     geo = {"ice": [n0, k_, a_, [zmin, ztop]], "from": a.tolist(), "to": b.tolist(), "rho": rho, "tracer": case["tracer"], "dz": case["dz"],
            "sat0": bool(n0 - nfun(z0) < 32 * EPS * n0), "sat1": bool(n0 - nfun(z1) < 32 * EPS * n0)}
-    rt = make_tracer(case, a, b, ice)
+    if case.get("decoy"):
+        # a tracer object used before for other endpoints and then re-pointed must behave like a fresh one
+        dc = case["decoy"]
+        first = [np.array(dc["from"], float) if dc["which"] in (0, 2) else a, np.array(dc["to"], float) if dc["which"] in (1, 2) else b]
+        rt = make_tracer(case, first[0], first[1], ice)
+        try:
+            [(q.path_length, q.tof, q.emitted_direction, q.received_direction) for q in rt.solutions]
+            rt.exists
+        except Exception:       # noqa: BLE001 -- the decoy pair is not what this case decides
+            pass
+        if dc["which"] in (0, 2):
+            rt.from_point = a
+        if dc["which"] in (1, 2):
+            rt.to_point = b
+        geo["reused_after"] = {"from": first[0].tolist(), "to": first[1].tolist()}
+    else:
+        rt = make_tracer(case, a, b, ice)
     if case["tracer"] == "basic":
         # observable of a mechanism of the numeric tracer, measured on the real ice model (see kf_basic_turning_depth_unresolved)
         try:
